@@ -161,7 +161,21 @@ def run(ctx):
             sy = Sym(rm)
             su, cu = field_updates(rm, "sum"), field_updates(rm, "count")
             ok = len(su) == 1 and len(cu) == 1 and not in_cycle(b, su[0][0]) and not in_cycle(b, cu[0][0])
-            chk.ob("C15.a", f"{rm.path} [sum/count]", ok, "self.sum += batch sum; self.count += batch count" if ok else "record_many does not fold the batch's sum and count into the histogram exactly once", rm.loc())
+            # every sample of the batch enters the batch sum: the f64 accumulation is on every way round the sample loop
+            # (skipping non-finite samples makes _sum differ from the sum of what was recorded)
+            skipped = None
+            for i_, k_, st in b.stmts():
+                if st["k"] == "assign" and st["rv"]["k"] == "bin" and st["rv"]["op"].startswith("Add") and "f64" in b.local_ty(st["p"]["l"]) and in_cycle(b, i_):
+                    v_ = repr(sy.rvalue(st["rv"], 0, frozenset()))
+                    if "Iterator::next" not in v_ and "next" not in v_:
+                        continue
+                    heads_ = [c for c in nonforeign_calls(rm) if c.fn is rm and c.is_("Iterator::next") and i_ in b.reachable(c.bb) and c.bb in b.reachable(i_) and "enumerate" not in sym_str(arg_syms(c)[0]).lower()]
+                    for hd in heads_[:1]:
+                        if hd.bb in b.reachable_after(hd.bb, cut={i_}):
+                            skipped = (i_, st.get("ln"))
+            if skipped:
+                ok = False
+            chk.ob("C15.a", f"{rm.path} [sum/count]", ok, "self.sum += batch sum; self.count += batch count" if ok else ("a sample can go round the batch loop without being added to the batch sum (conditional accumulation): _sum is no longer the sum of the recorded samples" if skipped else "") or "record_many does not fold the batch's sum and count into the histogram exactly once", rm.loc())
             # cumulative pass: an indexed update bucketed[idx + 1] += bucketed[idx] in a loop over 0..len-1
             rngs = []
             for c in nonforeign_calls(rm):
@@ -178,7 +192,7 @@ def run(ctx):
                     okc = True
                 if const_int(lo) == 1 and sym_is_call(hi_t, "len") or (const_int(lo) == 1 and "len(" in sym_str(hi_t) and hi_t[0] == "call"):
                     okc = guard1 = True  # 1..len with x[i] += x[i - 1]: empty for len < 2, no guard needed
-            guard = locals().get("guard1", False) or any(op in ("Ge", "Gt") and "len" in sym_str(a) and const_int(b_) in (1, 2) for op, a, b_, bb in comparisons(rm))
+            guard = locals().get("guard1", False) or any("len" in sym_str(a) and ((op == "Ge" and const_int(b_) in (1, 2)) or (op == "Gt" and const_int(b_) == 1)) for op, a, b_, bb in comparisons(rm))  # the guard must let a two-bound histogram through
             if not (okc and guard):
                 # the same sums taken on the fly: the merge loop adds a running total of the local buckets
                 # (`acc += local; self.buckets[idx] += acc`) instead of making the local buckets cumulative first
@@ -346,6 +360,23 @@ def run(ctx):
 
         # ---------------- C15.d
         RS = f"{P}::distribution::RollingSummary"
+        # an empty window reads 0; and the kind of a family (histogram / summary) is asked about the very name its
+        # distribution was built for — the sanitised name, not one assembled afterwards (the unit-suffixed family name)
+        qd, tq = [], []
+        for f_ in p.fns:
+            if "::tests::" in f_.path or not f_.j.get("mir"):
+                continue
+            for c in f_.body.calls():
+                if c.is_("Option<T>::unwrap_or") and len(c.args) == 2 and any(isinstance(x, tuple) and x and x[0] == "call" and isinstance(x[1], str) and strip_generics(x[1]).split("::")[-1] == "quantile" for x in sym_walk(arg_syms(c)[0])):
+                    qd.append((c, strip_sym(arg_syms(c)[1])))
+                elif c.is_("DistributionBuilder::get_distribution_type") and len(c.args) == 2:
+                    tq.append((c, arg_syms(c)[1]))
+        for c, dflt in qd:
+            zero = dflt[:2] == ("const", "float") and float(dflt[2]) == 0.0
+            chk.ob("C15.d", "summary quantiles [empty window reads 0]", zero, "quantile(q).unwrap_or(0.0)" if zero else f"an empty window renders {sym_str(dflt)[:30]} for its quantiles, not 0", c.loc(), nontrivial=False)
+        for c, nm_ in tq:
+            built = [x for x in sym_walk(nm_) if isinstance(x, tuple) and x and x[0] == "call" and isinstance(x[1], str) and strip_generics(x[1]).split("::")[-1] in ("format", "push_str", "concat", "join")]
+            chk.ob("C15.b", "family type [asked about the name the distribution was built for]", not built, "get_distribution_type(name) with the iterated sanitised name" if not built else "the TYPE of a family is decided on a name assembled at render time (with the unit suffix appended) while its distribution was chosen for the plain name: with overrides that match one but not the other a histogram is exposed as a summary, or the reverse", c.loc(), nontrivial=False)
         # one clock: the time a sample is stamped with (what add() files it under) and the time the window is evaluated at
         # (what snapshot() expires against) are readings of the same clock function
         def _clock(x):
